@@ -81,6 +81,7 @@ type c09gen struct {
 	nextCV  int // clause variables: 100, 101, ... (unique in the case)
 	nextPV  int // pattern variables: 0, 1, ... (unique in the case)
 	focus   string
+	rules   []*gt_c09 // rules asserted so far in this case
 	size    map[string]int // upper bound of the number of clauses per predicate (bounds the work of nested goals)
 }
 
@@ -213,6 +214,37 @@ func (g *c09gen) alternative(hv []*gt_c09) *gt_c09 {
 // wrapBody: a fact, a rule, or a rule whose body is a top-level disjunction of 2-3 alternatives: compile
 // stores ONE CLAUSE PER ALTERNATIVE, all with the same source term; only calls tell them apart.
 func (g *c09gen) wrapBody(h *gt_c09) *gt_c09 {
+	c := g.wrapBody0(h)
+	if c.k == 'C' && c.s == ":-" {
+		g.rules = append(g.rules, c)
+	}
+	return c
+}
+
+// patVariant: the term with its variables replaced by fresh pattern variables
+func (g *c09gen) patVariant(t *gt_c09) *gt_c09 {
+	m := map[int64]*gt_c09{}
+	var walk func(t *gt_c09) *gt_c09
+	walk = func(t *gt_c09) *gt_c09 {
+		switch t.k {
+		case 'V':
+			if _, ok := m[t.n]; !ok {
+				m[t.n] = g.pvar()
+			}
+			return m[t.n]
+		case 'C':
+			args := make([]*gt_c09, len(t.args))
+			for i, a := range t.args {
+				args[i] = walk(a)
+			}
+			return &gt_c09{k: 'C', s: t.s, args: args}
+		}
+		return t
+	}
+	return walk(t)
+}
+
+func (g *c09gen) wrapBody0(h *gt_c09) *gt_c09 {
 	var hv []*gt_c09
 	for _, v := range h.vars(nil) {
 		hv = append(hv, gv(v))
@@ -296,6 +328,10 @@ func (g *c09gen) pvar() *gt_c09 { g.nextPV++; return gv(g.nextPV - 1) }
 
 // goal / retract pattern
 func (g *c09gen) pattern(forRetract bool) *gt_c09 {
+	if forRetract && len(g.rules) > 0 && g.r.Intn(6) == 0 {
+		// retract((H :- B)) with the body of a rule of this case spelt out (a disjunction, an if-then-else ...)
+		return g.patVariant(pick(g.r, g.rules))
+	}
 	if g.r.Intn(25) == 0 {
 		switch g.r.Intn(6) {
 		case 0:
@@ -374,7 +410,28 @@ func (g *c09gen) piTerm() *gt_c09 {
 	return gc("/", ga(name), gi(int64(ar)))
 }
 
+// rep: how the harness passes the argument of the operation (see c09Represent); "" = as a literal term
+func (g *c09gen) rep() string {
+	if g.r.Intn(20) < 11 {
+		return ""
+	}
+	return fmt.Sprintf("@%d", 1+g.r.Intn(5))
+}
+
+// withRep puts a representation mode behind the operation word of a command
+func (g *c09gen) withRep(cmd string) string {
+	k := strings.IndexByte(cmd, ' ')
+	if k < 0 {
+		return cmd
+	}
+	return cmd[:k] + g.rep() + cmd[k:]
+}
+
 func (g *c09gen) update() string {
+	return g.withRep(g.update0())
+}
+
+func (g *c09gen) update0() string {
 	switch k := g.r.Intn(100); {
 	case k < 6:
 		return pick(g.r, []string{"az ", "aa "}) + g.badClause().wire()
@@ -485,12 +542,12 @@ func (g *c09gen) nestedTry() (string, bool) {
 		switch {
 		case k < 25:
 			t := iterPattern(false)
-			goals = append(goals, "c "+t.wire())
+			goals = append(goals, "c"+g.rep()+" "+t.wire())
 			addVars(t)
 			noteIter(t)
 		case k < 45:
 			t := iterPattern(true)
-			goals = append(goals, "r "+t.wire())
+			goals = append(goals, "r"+g.rep()+" "+t.wire())
 			addVars(t)
 			noteIter(t)
 		case k < 85:
@@ -518,13 +575,13 @@ func (g *c09gen) nestedTry() (string, bool) {
 				c = g.wrapBody(c)
 			}
 			goals = append(goals, guards...)
-			goals = append(goals, pick(g.r, []string{"az ", "az ", "aa "})+c.wire())
+			goals = append(goals, g.withRep(pick(g.r, []string{"az ", "az ", "aa "})+c.wire()))
 			noteAssert(c)
 		case k < 90:
-			goals = append(goals, "ab "+g.piTerm().wire())
+			goals = append(goals, "ab"+g.rep()+" "+g.piTerm().wire())
 		case k < 97:
 			t := g.pattern(false)
-			goals = append(goals, "ra "+t.wire()) // its variables stay unbound
+			goals = append(goals, "ra"+g.rep()+" "+t.wire()) // its variables stay unbound
 		default:
 			goals = append(goals, pick(g.r, []string{"az ", "aa "})+g.badClause().wire())
 		}
@@ -550,7 +607,7 @@ func genC09Case(r *rand.Rand, tier string) string {
 	// setup: a few clauses, duplicates and variables likely
 	for i, n := 0, 1+r.Intn(5); i < n; i++ {
 		c := g.wrapBody(g.clauseHead())
-		cmds = append(cmds, "az "+c.wire())
+		cmds = append(cmds, g.withRep("az "+c.wire()))
 		g.grow(c, 1)
 		if r.Intn(4) == 0 {
 			cmds = append(cmds, "az "+g.variant(c).wire()) // duplicate (up to renaming)
@@ -573,9 +630,9 @@ func genC09Case(r *rand.Rand, tier string) string {
 				id := len(its)
 				its = append(its, id)
 				if r.Intn(2) == 0 {
-					cmds = append(cmds, fmt.Sprintf("oc %d %s", id, g.pattern(false).wire()))
+					cmds = append(cmds, fmt.Sprintf("oc%s %d %s", g.rep(), id, g.pattern(false).wire()))
 				} else {
-					cmds = append(cmds, fmt.Sprintf("or %d %s", id, g.pattern(true).wire()))
+					cmds = append(cmds, fmt.Sprintf("or%s %d %s", g.rep(), id, g.pattern(true).wire()))
 				}
 				if r.Intn(10) < 7 {
 					cmds = append(cmds, fmt.Sprintf("nx %d", id))
@@ -703,6 +760,7 @@ func (c *termCapture) Scan(_ *engine.VM, t engine.Term, env *engine.Env) error {
 }
 
 type c09iter struct {
+	mode    int
 	retract bool
 	term    engine.Term
 	pi      string
@@ -777,6 +835,84 @@ func c09Rulify(t engine.Term) engine.Term {
 	return compound(":-", t, atom("true"))
 }
 
+
+// c09Represent: the same abstract argument t in another Go representation — through variables that earlier
+// goals of the SAME conjunction bind (the builtin then gets an unresolved variable plus the environment).
+//   1 the whole argument through a variable          C = T, op(C)
+//   2 through a chain of two variables               C = C0, C0 = T, op(C)
+//   3 the head through a variable                    H = Head, op((H :- B))
+//   4 the body through a variable                    B = Body, op((Head :- B))
+//   5 the arguments of the head / the parts of Name/Arity through variables
+func c09Represent(m int, t engine.Term) (pre []engine.Term, arg engine.Term) {
+	eq := func(a, b engine.Term) engine.Term { return compound("=", a, b) }
+	whole := func() ([]engine.Term, engine.Term) {
+		c := engine.NewVariable()
+		return []engine.Term{eq(c, t)}, c
+	}
+	viaArgs := func(h engine.Term) ([]engine.Term, engine.Term) {
+		c, ok := h.(engine.Compound)
+		if !ok {
+			return nil, nil
+		}
+		var pre []engine.Term
+		args := make([]engine.Term, c.Arity())
+		for i := range args {
+			v := engine.NewVariable()
+			pre = append(pre, eq(v, c.Arg(i)))
+			args[i] = v
+		}
+		return pre, c.Functor().Apply(args...)
+	}
+	rule, isRule := t.(engine.Compound)
+	isRule = isRule && rule.Functor().String() == ":-" && rule.Arity() == 2
+	switch m {
+	case 1:
+		return whole()
+	case 2:
+		c, c0 := engine.NewVariable(), engine.NewVariable()
+		return []engine.Term{eq(c, c0), eq(c0, t)}, c
+	case 3:
+		if isRule {
+			h := engine.NewVariable()
+			return []engine.Term{eq(h, rule.Arg(0))}, compound(":-", h, rule.Arg(1))
+		}
+	case 4:
+		if isRule {
+			b := engine.NewVariable()
+			return []engine.Term{eq(b, rule.Arg(1))}, compound(":-", rule.Arg(0), b)
+		}
+		return whole()
+	}
+	if m >= 3 {
+		if isRule {
+			if pre, h := viaArgs(rule.Arg(0)); h != nil {
+				return pre, compound(":-", h, rule.Arg(1))
+			}
+		} else if pre, h := viaArgs(t); h != nil {
+			return pre, h
+		}
+		return whole()
+	}
+	return nil, t
+}
+
+func c09Mode(word string) (string, int) {
+	if k := strings.IndexByte(word, '@'); k >= 0 {
+		m, err := strconv.Atoi(word[k+1:])
+		must(err)
+		return word[:k], m
+	}
+	return word, 0
+}
+
+func c09Conj(goals []engine.Term) engine.Term {
+	conj := goals[len(goals)-1]
+	for j := len(goals) - 2; j >= 0; j-- {
+		conj = compound(",", goals[j], conj)
+	}
+	return conj
+}
+
 func runC09(payload string) string {
 	i, _ := newInterp("")
 	must(i.Exec(":- dynamic(p/1).\ns(1).\ns(2).\n"))
@@ -790,7 +926,7 @@ func runC09(payload string) string {
 
 	iters := map[int]*c09iter{}
 	var res []string
-	updOpen, errs, nests, steps := 0, 0, 0, 0
+	updOpen, errs, nests, steps, reps := 0, 0, 0, 0, 0
 	mode := map[string]bool{}
 
 	openOn := func(pi string, except *c09iter) bool {
@@ -822,6 +958,11 @@ func runC09(payload string) string {
 		if len(f) > 1 {
 			arg = f[1]
 		}
+		rep := 0
+		f[0], rep = c09Mode(f[0])
+		if rep > 0 {
+			reps++
+		}
 		switch f[0] {
 		case "az", "aa", "ab", "ra":
 			ts, err := newTermDecoder().terms(arg)
@@ -833,7 +974,8 @@ func runC09(payload string) string {
 					pi = fmt.Sprintf("%v/%v", c.Arg(0), c.Arg(1))
 				}
 			}
-			r := oneShot(compound(name, ts[0]))
+			pre, a := c09Represent(rep, ts[0])
+			r := oneShot(c09Conj(append(pre, compound(name, a)))) // ONE top-level conjunction
 			if r == "true" && openOn(pi, nil) {
 				updOpen++
 			}
@@ -844,7 +986,7 @@ func runC09(payload string) string {
 			must(err)
 			ts, err := newTermDecoder().terms(g[1])
 			must(err)
-			iters[k] = &c09iter{retract: f[0] == "or", term: ts[0], pi: c09PI(ts[0])}
+			iters[k] = &c09iter{retract: f[0] == "or", term: ts[0], pi: c09PI(ts[0]), mode: rep}
 			res = append(res, "-")
 			mode["inter"] = true
 		case "nx":
@@ -858,11 +1000,16 @@ func runC09(payload string) string {
 			steps++
 			if it.state == 0 {
 				names := map[engine.Variable]string{}
-				text := plText(it.term, names)
+				pre, a := c09Represent(it.mode, it.term)
+				text := ""
+				for _, g := range pre {
+					text += plText(g, names) + ", "
+				}
+				at := plText(a, names)
 				if it.retract {
-					text = "retract(" + text + "), R = " + text + "."
+					text += "retract(" + at + "), R = " + at + "."
 				} else {
-					text = text + ", R = " + text + "."
+					text += at + ", R = " + at + "."
 				}
 				sols, err := i.Query(text)
 				must(err)
@@ -920,12 +1067,19 @@ func runC09(payload string) string {
 				t := ts[0]
 				mark := compound("$mark", engine.Integer(gi))
 				pi := c09PI(t)
+				gmode := 0
+				g[0], gmode = c09Mode(g[0])
+				if gmode > 0 {
+					reps++
+				}
+				gpre, ga := c09Represent(gmode, t)
+				goals = append(goals, gpre...)
 				switch g[0] {
 				case "c":
-					goals = append(goals, t)
+					goals = append(goals, ga)
 					iterPIs = append(iterPIs, pi)
 				case "r":
-					goals = append(goals, compound("retract", t), mark)
+					goals = append(goals, compound("retract", ga), mark)
 					for _, ip := range iterPIs {
 						if ip == pi {
 							upds = append(upds, upd{int64(gi), pi})
@@ -942,7 +1096,7 @@ func runC09(payload string) string {
 							pi = fmt.Sprintf("%v/%v", c.Arg(0), c.Arg(1))
 						}
 					}
-					goals = append(goals, compound(name, t), mark)
+					goals = append(goals, compound(name, ga), mark)
 					for _, ip := range iterPIs {
 						if ip == pi {
 							upds = append(upds, upd{int64(gi), pi})
@@ -952,7 +1106,7 @@ func runC09(payload string) string {
 						upds = append(upds, upd{int64(gi), pi})
 					}
 				case "at":
-					goals = append(goals, compound("atomic", t))
+					goals = append(goals, compound("atomic", ga))
 				default:
 					panic("bad nested goal " + g[0])
 				}
@@ -1032,7 +1186,7 @@ func runC09(payload string) string {
 				k++
 			}
 			if k < len(f) && f[k] == "C2:%3b" && !(k+1 < len(f) && f[k+1] == "C2:->") {
-				switch f[0] {
+				switch w, _ := c09Mode(f[0]); w {
 				case "aa":
 					multiA++
 				case "az":
@@ -1041,5 +1195,5 @@ func runC09(payload string) string {
 			}
 		}
 	}
-	return strings.Join(res, " ; ") + fmt.Sprintf(" ### nt=%d mode=%s upd_while_open=%s errors=%s steps=%s asserta_block=%s assertz_block=%s", nt, m, bucket(updOpen), bucket(errs), bucket(steps), bucket(multiA), bucket(multiZ))
+	return strings.Join(res, " ; ") + fmt.Sprintf(" ### nt=%d mode=%s upd_while_open=%s errors=%s steps=%s asserta_block=%s assertz_block=%s through_variables=%s", nt, m, bucket(updOpen), bucket(errs), bucket(steps), bucket(multiA), bucket(multiZ), bucket(reps))
 }
